@@ -65,7 +65,18 @@ Definition mk_phi (g : cfg) (s : scalar) (df entry : Z) : res phi :=
   ps <- cfg_predecessor_indices g df ;;
   Ok (mkphi (map (fun p => (p, s)) ps) (if df =? entry then Some s else None) s).
 
-(* the work-list loop of one scalar; (queue, insertions, cfg) *)
+(* one dominance-frontier element of the block just popped; state = (queue, insertions, cfg) *)
+Definition phi_step (s : scalar) (defs : list Z) (entry : Z) (st : list Z * list Z * cfg) (d : N)
+  : res (list Z * list Z * cfg) :=
+  let '(q1, ins1, g1) := st in
+  let dz := Z.of_N d in
+  if memZ dz ins1 then Ok st else
+  ph <- mk_phi g1 s dz entry ;;
+  bs <- update_block (g_blocks g1) dz
+          (fun blk => mkblock (b_index blk) (b_next blk) (b_instrs blk) (b_phis blk ++ [ph])) ;;
+  Ok (if memZ dz defs then q1 else q1 ++ [dz], dz :: ins1, set_blocks g1 bs).
+
+(* the work-list loop of one scalar *)
 Fixpoint phi_loop (fuel : nat) (dfs : nmap nset) (s : scalar) (defs : list Z) (entry : Z)
          (queue : list Z) (ins : list Z) (g : cfg) : res cfg :=
   match fuel with
@@ -75,16 +86,7 @@ Fixpoint phi_loop (fuel : nat) (dfs : nmap nset) (s : scalar) (defs : list Z) (e
       | [] => Ok g
       | b :: q =>
           df <- nm_idx (Z.to_N b) dfs ;;
-          r <- fold_left (fun acc d =>
-                            st <- acc ;;
-                            let '(q1, ins1, g1) := st in
-                            let dz := Z.of_N d in
-                            if memZ dz ins1 then Ok st else
-                            ph <- mk_phi g1 s dz entry ;;
-                            bs <- update_block (g_blocks g1) dz
-                                    (fun blk => mkblock (b_index blk) (b_next blk) (b_instrs blk) (b_phis blk ++ [ph])) ;;
-                            Ok (if memZ dz defs then q1 else q1 ++ [dz], dz :: ins1, set_blocks g1 bs))
-                         df (Ok (q, ins, g)) ;;
+          r <- fold_left (fun acc d => st <- acc ;; phi_step s defs entry st d) df (Ok (q, ins, g)) ;;
           let '(q2, ins2, g2) := r in
           phi_loop fuel dfs s defs entry q2 ins2 g2
       end
@@ -100,7 +102,7 @@ Definition insert_phi_nodes (g : cfg) : res cfg :=
       fold_left (fun acc sd =>
                    g1 <- acc ;;
                    if negb (mem_scalar (fst sd) nl) then Ok g1
-                   else phi_loop (2 * length (g_blocks g) + 2) dfs (fst sd) (snd sd) entry (snd sd) [] g1)
+                   else phi_loop (S (length (snd sd) + length (g_blocks g))) dfs (fst sd) (snd sd) entry (snd sd) [] g1)
                 (scalars_mutated_in_blocks g) (Ok g)
   end.
 
